@@ -15,7 +15,7 @@ TABLE = [
     ("C11", r".*_R", r"step\.|hinit", ["step_bounds"]),
     ("C07", r".*", r".*", ["dense_midstep_order"]),
     ("C06", r"rk4|coef_dense", r"dense", ["dense_midstep_order"]),
-    ("C06", r"radau", r"dense\.|interp", ["radau_interpolant_interval"]),
+    ("C06", r"radau|bdf", r"dense\.|interp|hist\.", ["dense_end_points", "radau_interpolant_interval"]),
     ("C19", r"radau", r"interpolant_interval|dense\.", ["radau_interpolant_interval"]),
     ("C06", r".*", r"dense\.|interp\.", ["event_interpolant_right_end"]),
     ("C18", r".*", r"nfev|naccpt|nstep|njev", ["counters"]),
